@@ -111,6 +111,14 @@ Theorem C10_sibling_reads_classified : forallb read_ok g_wide_reads = true.
 Proof. exact wide_reads_classified_lemma. Qed.
 Print Assumptions C10_sibling_reads_classified.
 
+(* no stale exception: every hand-written classification row (stores, reads) and review row (module objects) still matches an item
+   of the regenerated tables; a row whose code is gone or has changed must be removed *)
+Theorem C10_no_stale_classification_rows :
+  forallb (store_class_used g_stores) store_classes = true /\ forallb (read_class_used g_wide_reads) read_classes = true /\
+  forallb (modobj_review_used g_modobjs) modobj_reviewed = true.
+Proof. exact no_stale_rows_lemma. Qed.
+Print Assumptions C10_no_stale_classification_rows.
+
 (* every object bound at module or class scope of src/nunavut (literal containers AND results of calls, i.e. instances of any
    class) is never written and never handed to code that could keep or fill it -- or has been reviewed; this is what a process-wide
    cache object passed to the bundled jinja2 fails *)
